@@ -165,6 +165,7 @@ class IOBase(Communicator):
         if self.is_connected:
             return True  # no need for intermediate updates
         try:
+            self._last_connect_attempt = time.time()
             self.connectStart()
             if self._last_error:
                 self.log.info('connected')
@@ -193,7 +194,7 @@ class IOBase(Communicator):
             now = time.time()
             if now >= self._last_connect_attempt + self.pollinterval:
                 # we do not try to reconnect more often than pollinterval
-                _last_connect_attempt = now
+                self._last_connect_attempt = now
                 if self.read_is_connected():
                     return
             raise SilentError('disconnected') from None
